@@ -560,16 +560,20 @@ let inst_m o =
 let rec bump_subs h c v i = function
 | [] -> []
 | s :: r ->
-  (if in_mro h c i then { cs_m = s.cs_m; cs_ver = v } else s) :: (bump_subs h
-                                                                   c v (S i)
-                                                                   r)
+  (if in_mro h c i
+   then { cs_m = s.cs_m; cs_ver = (Z.add v (Z.of_nat i)) }
+   else s) :: (bump_subs h c v (S i) r)
 
 (** val set_class : bool -> hier -> world -> nat -> value option -> world **)
 
 let set_class fx h w c e =
   let l = upd w.w_cls c { cs_m = e; cs_ver = w.w_next } in
-  { w_cls = (if fx then bump_subs h c w.w_next O l else l); w_objs =
-  w.w_objs; w_cache = w.w_cache; w_next = (Z.add w.w_next (Zpos XH)) }
+  if fx
+  then { w_cls = (bump_subs h c (Z.add w.w_next (Zpos XH)) O l); w_objs =
+         w.w_objs; w_cache = w.w_cache; w_next =
+         (Z.add (Z.add w.w_next (Zpos XH)) (Z.of_nat (length w.w_cls))) }
+  else { w_cls = l; w_objs = w.w_objs; w_cache = w.w_cache; w_next =
+         (Z.add w.w_next (Zpos XH)) }
 
 (** val set_obj : world -> nat -> ostate -> world **)
 
